@@ -78,6 +78,7 @@ type Gen struct {
 	assumptions map[string]bool // textual assumptions for evidence
 	overflow bool
 	curFunc  string
+	axioms   []string
 }
 
 func newGen(P *Program, mode, pkgPath string) *Gen {
@@ -95,11 +96,13 @@ func (g *Gen) prelude() {
 	g.decl("sort:Str", "(declare-sort Str 0)")
 	g.decl("dt:Slice", "(declare-datatypes ((Slice 0)) (((mk-slice (s.arr Int) (s.off Int) (s.len Int) (s.cap Int)))))")
 	g.decl("dt:Iface", "(declare-datatypes ((Iface 0)) (((mk-iface (i.tag Int) (i.val Int)))))")
-	g.decl("fn:str.len", "(declare-fun str.len (Str) Int)")
-	g.decl("c:str.empty", "(declare-const str.empty Str)")
-	g.decl("ax:str.len", "(assert (forall ((s Str)) (! (>= (str.len s) 0) :pattern ((str.len s)))))")
-	g.decl("ax:str.empty", "(assert (= (str.len str.empty) 0))")
-	g.decl("ax:str.empty2", "(assert (forall ((s Str)) (! (=> (= (str.len s) 0) (= s str.empty)) :pattern ((str.len s)))))")
+	g.decl("fn:sl.ix", "(declare-fun sl.ix (Slice Int) Int)")
+	g.decl("ax:sl.ix", "(assert (forall ((s Slice) (i Int)) (! (= (sl.ix s i) (+ (s.off s) i)) :pattern ((sl.ix s i)))))")
+	g.decl("fn:st.len", "(declare-fun st.len (Str) Int)")
+	g.decl("c:st.empty", "(declare-const st.empty Str)")
+	g.decl("ax:st.len", "(assert (forall ((s Str)) (! (>= (st.len s) 0) :pattern ((st.len s)))))")
+	g.decl("ax:st.empty", "(assert (= (st.len st.empty) 0))")
+	g.decl("ax:st.empty2", "(assert (forall ((s Str)) (! (=> (= (st.len s) 0) (= s st.empty)) :pattern ((st.len s)))))")
 }
 
 func (g *Gen) decl(key, text string) {
@@ -293,7 +296,7 @@ func (g *Gen) zero(t types.Type) string {
 			return g.intLit(big.NewInt(0), bits)
 		}
 		if u.Kind() == types.String || u.Kind() == types.UntypedString {
-			return "str.empty"
+			return "st.empty"
 		}
 		if u.Info()&types.IsFloat != 0 {
 			return "0.0"
@@ -334,10 +337,16 @@ func pow2(n int) *big.Int { return new(big.Int).Lsh(big.NewInt(1), uint(n)) }
 // rangeFact: in int mode, the machine range of an integer-typed term.
 func (g *Gen) rangeFact(t types.Type, term string) string {
 	if g.mode != "int" {
+		if _, isIf := t.Underlying().(*types.Interface); isIf {
+			return fmt.Sprintf("(=> (= (i.tag %s) 0) (= (i.val %s) 0))", term, term)
+		}
 		return ""
 	}
 	bits, signed, ok := intInfo(t)
 	if !ok {
+		if _, isIf := t.Underlying().(*types.Interface); isIf {
+			return fmt.Sprintf("(=> (= (i.tag %s) 0) (= (i.val %s) 0))", term, term)
+		}
 		if _, isSl := t.Underlying().(*types.Slice); isSl {
 			return fmt.Sprintf("(and (>= (s.len %s) 0) (>= (s.off %s) 0) (>= (s.cap %s) (s.len %s)) (=> (= (s.arr %s) 0) (and (= (s.len %s) 0) (= (s.cap %s) 0) (= (s.off %s) 0))))", term, term, term, term, term, term, term, term)
 		}
@@ -368,7 +377,7 @@ func (g *Gen) rangeFact(t types.Type, term string) string {
 
 func (g *Gen) strLit(s string) string {
 	if s == "" {
-		return "str.empty"
+		return "st.empty"
 	}
 	if n, ok := g.strlits[s]; ok {
 		return n
@@ -376,7 +385,7 @@ func (g *Gen) strLit(s string) string {
 	n := fmt.Sprintf("|str:%d:%s|", len(g.strlits), sanitizeSym(s))
 	g.strlits[s] = n
 	g.decls = append(g.decls, fmt.Sprintf("(declare-const %s Str)", n))
-	g.decls = append(g.decls, fmt.Sprintf("(assert (= (str.len %s) %d))", n, len(s)))
+	g.decls = append(g.decls, fmt.Sprintf("(assert (= (st.len %s) %d))", n, len(s)))
 	// distinct from previous literals
 	var others []string
 	for o, on := range g.strlits {
@@ -590,6 +599,11 @@ func (g *Gen) render(o *Obligation, produceModels bool) string {
 	for _, name := range g.pureOrd {
 		b.WriteString(g.pure[name].text)
 		b.WriteByte('\n')
+	}
+	for _, a := range g.axioms {
+		b.WriteString("(assert ")
+		b.WriteString(a)
+		b.WriteString(")\n")
 	}
 	n := o.NFacts
 	if n > len(g.facts) {
